@@ -151,3 +151,22 @@ func vH_FP_exact(exp10 int, neg bool) {
 		vAssertRounded(man, exp10, neg, math.Float64bits(f), "C04.exact-rounded")
 	}
 }
+
+// ---- C04 tier 4: the glue of ParseJSONFloatPrefix -----------------------------
+func vH_FP_glue(data []byte) {
+	f, n, err := ParseJSONFloatPrefix(data)
+	end, ok := vfRefNumberEnd(data)
+	vReach("C04.glue-returned")
+	if !ok {
+		vAssert(err != nil, "C04.glue-rejects")
+		return
+	}
+	vAssert(err == nil || err == errRange, "C04.glue-accepts")
+	if err == nil {
+		vReach("C04.glue-ok")
+		vAssert(n == end, "C04.glue-length")
+		vAssertGlueValue(data[:end], math.Float64bits(f), "C04.glue-value")
+	} else if err == errRange {
+		vAssert(vGlueOverflows(data[:end]), "C04.glue-range-error-only-on-overflow")
+	}
+}
